@@ -94,3 +94,43 @@ def layout(values, how, dtype="float64"):
     if kind == "series":
         return pd.Series(a, index=np.arange(a.size)[::-1] if how.get("reversed_index") else None)
     raise ValueError(kind)
+
+
+def arr(values, shape, order="C", dtype="float64"):
+    """The element sequence `values` (logical C order) as an array of `shape`
+    with memory layout `order`: 'C' contiguous, 'F' Fortran-contiguous,
+    'S' a non-contiguous strided view, 'T' a transposed view of a C array."""
+    a = np.array(values, dtype=dtype).reshape(shape)
+    if a.ndim != 2 or order == "C":
+        return a
+    if order == "F":
+        return np.asfortranarray(a)
+    if order == "T":
+        return np.ascontiguousarray(a.T).T
+    if order == "S":
+        buf = np.full((a.shape[0] * 2, a.shape[1] * 2 + 1), -9.87e5, dtype=a.dtype)
+        buf[::2, 1::2] = a
+        return buf[::2, 1::2]
+    raise ValueError(order)
+
+
+ORDERS = ["C", "C", "F", "T", "S"]
+
+
+class Lay:
+    """Cycles through a list of layout codes so that the arrays of one call get (possibly different) memory layouts."""
+
+    def __init__(self, orders):
+        self.orders = list(orders) if orders else ["C"]
+        self.i = 0
+
+    def __call__(self, values, shape, dtype="float64"):
+        o = self.orders[self.i % len(self.orders)]
+        self.i += 1
+        return arr(values, shape, o, dtype)
+
+
+def orders_strategy():
+    from hypothesis import strategies as st
+
+    return st.lists(st.sampled_from(ORDERS), min_size=1, max_size=4)
